@@ -81,7 +81,13 @@ C02(e, X, mode) ==
         moved == IF X = <<>> THEN {}
                  ELSE {s \in S : /\ ~Match(Obs(e, s[1], s[2]), X[s[1]][s[2]])
                                  /\ \E r \in S : r # s /\ Match(Obs(e, s[1], s[2]), X[r[1]][r[2]])}
+        \* a sigma that is not this slot's posterior but is exactly another slot's prior: the clamp paired with the wrong original
+        wrongClamp == IF X = <<>> THEN {}
+                      ELSE {s \in S : /\ ~Match(Obs(e, s[1], s[2]), X[s[1]][s[2]])
+                                      /\ Obs(e, s[1], s[2]).sigma # Pre(e, s[1], s[2]).sigma
+                                      /\ \E r \in S : r # s /\ Obs(e, s[1], s[2]).sigma = Pre(e, r[1], r[2]).sigma}
     IN  {Slot("C02.identity", s[1], s[2]) : s \in idBad}
+        \cup {Slot("C02.sigma_clamped_to_another_slots_prior", s[1], s[2]) : s \in wrongClamp}
         \cup {Slot("C02.input_identity_changed", s[1], s[2]) : s \in keepBad}
         \cup (IF untouched \/ updated THEN {} ELSE {"C02.mixture"})
         \cup {Slot("C02.moved", s[1], s[2]) : s \in moved}
